@@ -12,6 +12,7 @@ import SuccinctlyVerif.Proof.JsonNavDecode
 import SuccinctlyVerif.Proof.JsonNavRange
 import SuccinctlyVerif.Proof.JsonNavFull
 import SuccinctlyVerif.Proof.JsonNavFast
+import SuccinctlyVerif.Proof.JsonBridge
 namespace SV.Props.C06
 open SV SV.JsonNav SV.JsonText SV.JsonSemi
 
@@ -199,5 +200,31 @@ example :
       (.cons [.sp] (.obj [] [.plain ⟨0x6B#8, by decide⟩] [] [] (.str [.plain ⟨0x5D#8, by decide⟩]) [] .nil) [] .nil), [.sp]⟩
     d.text.length = 16 ∧ textRange (build true false d.text) 0 = some (1, 15) := by
   decide +kernel
+
+/-! ### the documents quantified over are exactly the RFC 8259 texts of C08 -/
+
+/-- Every document whose strings are well-formed (`StrsOk`: each string body and key satisfies C08's
+`StrBody` — unescaped characters are well-formed UTF-8 scalars ≥ U+0020 other than `"` and `\`,
+`\u` escapes are non-surrogates or high/low pairs) renders to a text that is `Valid` in C08's
+grammar (`Spec/Json.lean`), with nesting bound `depth d.value`. -/
+theorem docs_are_valid_texts (d : Doc) (h : StrsOk d.value) : Json.Valid (depth d.value) d.text :=
+  doc_valid d h
+
+/-- Conversely every `Valid` text, for any nesting bound, is the rendering of such a document. -/
+theorem valid_texts_are_docs (D : Nat) (b : List (BitVec 8)) (h : Json.Valid D b) :
+    ∃ d : Doc, d.text = b ∧ StrsOk d.value :=
+  valid_lift D b h
+
+/-- Hence C06 over exactly the RFC 8259 texts of C08: for every `Valid` text shorter than 2^30 bytes
+the composed `JsonIndex::build` succeeds and walking it from the root yields the value of a document
+tree whose rendering is that text (and whose strings are well-formed, so every string decodes by
+`decode_escapes_eq` to what the specification decoder gives). -/
+theorem navigate_eq_valid (hasAvx2 simd : Bool) (D : Nat) (b : List (BitVec 8)) (h : Json.Valid D b)
+    (hlen : b.length < 2 ^ 30) :
+    ∃ d : Doc, d.text = b ∧ StrsOk d.value ∧ ∀ fuel, depth d.value ≤ fuel →
+      (buildComposed hasAvx2 simd b).map (fun x => reconstruct x fuel 0) = some (valueOf d.value) := by
+  obtain ⟨d, hd, hok⟩ := valid_lift D b h
+  subst hd
+  exact ⟨d, rfl, hok, fun fuel hf => navigate_composed hasAvx2 simd d hlen fuel hf⟩
 
 end SV.Props.C06
